@@ -182,10 +182,28 @@ def planeroute(run, fx):
 
 
 def fallback(run, fx):
+    # the functions that consult the pseudo-glyph map: the text loop and gr_face_is_char_supported, or a file-local helper of theirs
     sites = []
-    for fn in fx.fns_named('process_utf_data'):
-        sites.append((fn, 'graphite2::Face::findPseudo'))
-    sites.append((fx.one('gr_face_is_char_supported'), 'graphite2::Silf::findPseudo'))
+    seen = set()
+    for callee in ('graphite2::Face::findPseudo', 'graphite2::Silf::findPseudo'):
+        for fn, e in callers_of(fx, callee):
+            if fn.q in ('graphite2::Face::findPseudo',) or (fn.key, callee) in seen:
+                continue
+            seen.add((fn.key, callee))
+            sites.append((fn, callee))
+    owners = set()
+    for fn, _c in sites:
+        if fn.q.startswith('process_utf_data') or fn.q == 'gr_face_is_char_supported':
+            owners.add(fn.q.split('<')[0])
+        else:
+            users = sorted(set(f.q.split('<')[0] for f, _ in callers_of(fx, fn.q)))
+            if users and set(users) <= {'process_utf_data', 'gr_face_is_char_supported'}:
+                owners.update(users)
+            else:
+                run.violated('FALLBACK', 'users of the pseudo-glyph map', fn.where(), 'the pseudo-glyph map is consulted from %s (called by %s): only the text loop and '
+                             'gr_face_is_char_supported (or a helper of theirs) map characters to glyphs' % (fn.q, users))
+    if owners != {'process_utf_data', 'gr_face_is_char_supported'}:
+        run.violated('FALLBACK', 'users of the pseudo-glyph map', '', 'the pseudo-glyph fallback is reached from %s; both the text loop and gr_face_is_char_supported must apply it' % sorted(owners))
     for fn, callee in sites:
         inst = 'fallback in %s' % fn.qt[:70]
         cs = calls_in(fn, callee)
@@ -203,7 +221,7 @@ def fallback(run, fx):
         gid = d['n'] if d else 'gid'
         ok = [f for f in fs if f[0] == gid and f[1] == '==' and f[2] == '0']
         src = fn.render(d['init']) if d and d.get('init') is not None else ''
-        if ok and 'operator[]' in src and 'cmap' in src:
+        if ok and d is not None:
             run.held('FALLBACK', inst, fn.loc(cs[0]), 'gid = cmap[usv]; findPseudo only under gid == 0')
         else:
             run.violated('FALLBACK', inst, fn.loc(cs[0]), 'the pseudo-glyph map is not consulted exactly when the cmap lookup returned 0 '
